@@ -31,7 +31,7 @@ func TestMain(m *testing.M) { fw.Main(m) }
 // appends the given rows that matched no record by ranging over a Go map: with
 // two or more such rows their order varies from run to run. The generator gives
 // REPLACE at most one row without a matching record.
-const avoidReplaceUnmatchedOrder = true
+const avoidReplaceUnmatchedOrder = false
 
 // loadObjectFromStdin (lib/query/load_view.go:521-537) takes the exclusive STDIN
 // lock for every statement that loads STDIN for update, because FileInfo.ForUpdate
@@ -114,7 +114,7 @@ func copyKinds(k map[string]map[string]string) map[string]map[string]string {
 	return out
 }
 
-func (g *gen) pct(label string, p int) bool    { return fw.Pct(g.t, label, p) }
+func (g *gen) pct(label string, p int) bool     { return fw.Pct(g.t, label, p) }
 func (g *gen) rng(label string, lo, hi int) int { return fw.Range(g.t, label, lo, hi) }
 
 func (g *gen) intLit() int64 {
@@ -824,7 +824,8 @@ func (g *gen) genRepsel(T, O string) (opT, bool) {
 		if _, err := try(nil); err != nil || g.pct("where", 50) {
 			op.Where = g.aimed([]bnd{{"", O}}, try)
 		}
-		if _, err := try(op.Where); err != nil {
+		sub, err := try(op.Where)
+		if err != nil || (sub == "none" && attempt < 2) {
 			continue
 		}
 		return op, true
@@ -1039,12 +1040,12 @@ func genCase(t *rapid.T) histCase {
 // expectations (pure) and execution
 
 type stepExp struct {
-	op        opT
-	sql       string
-	ef        *effect
-	after     *model // all tables after the step
-	committed *model // commit: the committed state
-	stdinAgain bool  // a second for-update statement on STDIN inside one transaction
+	op         opT
+	sql        string
+	ef         *effect
+	after      *model // all tables after the step
+	committed  *model // commit: the committed state
+	stdinAgain bool   // a second for-update statement on STDIN inside one transaction
 }
 
 // expectations runs the model over the history; the history is cut at the
@@ -1613,7 +1614,7 @@ func checkHist(c histCase) (fw.Outcome, *fw.Violation) {
 
 func TestC05History(t *testing.T) {
 	fw.Run(t, fw.Spec[histCase]{
-		ID: "C05", Name: "dml_history", Quick: 12000, Thorough: 240000,
+		ID: "C05", Name: "dml_history", Quick: 10000, Thorough: 200000,
 		Gen: genCase, Check: checkHist,
 		Rule: "tables t (CSV file, temporary table or STDIN) and optionally u (file or temporary table), 2-4 columns (integer-like id/v/w, string s; NULLs, duplicate ids), 0-6 rows, and a history of 3-12 statements generated up front next to a live copy of the model: INSERT VALUES (column subset / permuted list), INSERT SELECT (expressions, WHERE, ORDER BY on a total order; other table or itself), UPDATE (1-2 SET items), UPDATE..FROM (JOIN / LEFT JOIN / comma join, aliases, one or two targets), DELETE, multi-table DELETE, REPLACE USING(1-2 keys) VALUES / SELECT, ALTER TABLE ADD (one/several, DEFAULT literal/expression, FIRST/LAST/BEFORE/AFTER) / DROP / RENAME, COMMIT, ROLLBACK; predicates (relational operators, AND/OR/NOT, IS NULL, IN, arithmetic) are aimed at strict non-empty subsets. Each history is executed statement by statement on one in-process session at --cpu 1 and again at --cpu 4; after every step SELECT * of every table equals the model (column names and order, row order, cell text, NULL-ness), Tx.AffectedRows and the 'N record(s) <verb> on <table>' log lines equal the model's inserted/matched/removed counts; after COMMIT every file re-read by a fresh session equals the model; after ROLLBACK the model is the last committed state. Non-trivial = at least 3 data-changing steps of at least 2 kinds, one of which matches a strict non-empty subset of its target's rows; distinct by (table kinds, sequence of rule names with their match class)",
 		Assumptions: []string{
